@@ -65,7 +65,7 @@ func (eng *Engine) verifyFunction(fn *ssa.Function, c *FuncContract, checkLocks 
 		res.Panic = "function has no body"
 		return
 	}
-	st := &State{heap: map[string]Term{}, fresh: map[string]bool{}, published: map[string]bool{}, facts: map[string]bool{}, arrVals: map[string]Value{}, freshSeq: map[string]int{}, roots: map[string]rootInfo{}}
+	st := &State{heap: map[string]Term{}, fresh: map[string]bool{}, published: map[string]bool{}, facts: map[string]bool{}, arrVals: map[string]Value{}, freshSeq: map[string]int{}, roots: map[string]rootInfo{}, ownKeys: map[string]map[string]bool{}}
 	st.allocTop = e.declare("top0", SInt)
 	st.now = e.declare("now0", SInt)
 	st.assert(Le(Zero, st.allocTop))
@@ -264,6 +264,20 @@ func (e *Exec) finishPath(st *State, fr *Frame, res []Value, pos token.Pos, pani
 		_ = r
 	}
 	env := e.topEnv(st, fr, res, true)
+	for n, v := range e.specEnvFor(st, fr).vars {
+		_, have := env.vars[n]
+		_, cell := fr.names["&"+n]
+		if sv, ok := fr.names[n]; ok {
+			if _, isParam := sv.(*ssa.Parameter); !isParam {
+				cell = true // the source variable was reassigned: use its current value
+			}
+		}
+		if !have || cell {
+			// (a variable whose address is taken, e.g. captured by a deferred
+			// closure, denotes its current value; old(...) still sees the entry heap)
+			env.vars[n] = v
+		}
+	}
 	clauses := c.Ensures
 	kind := "ensures"
 	if panicked {
@@ -388,7 +402,7 @@ func (eng *Engine) lemmaObligations(tag string) (*FuncResult, error) {
 			}
 		}
 		e := newExec(eng, nil)
-		st := &State{heap: map[string]Term{}, fresh: map[string]bool{}, published: map[string]bool{}, facts: map[string]bool{}, arrVals: map[string]Value{}, freshSeq: map[string]int{}, roots: map[string]rootInfo{}}
+		st := &State{heap: map[string]Term{}, fresh: map[string]bool{}, published: map[string]bool{}, facts: map[string]bool{}, arrVals: map[string]Value{}, freshSeq: map[string]int{}, roots: map[string]rootInfo{}, ownKeys: map[string]map[string]bool{}}
 		st.allocTop = e.declare("top0", SInt)
 		st.now = e.declare("now0", SInt)
 		env := &SpecEnv{e: e, st: st, vars: map[string]Value{}, what: "lemma " + l.Name}
